@@ -1,6 +1,6 @@
 #!/bin/bash
 # tools/all_quick.sh [seed ...]: every quick check from a fresh process for each VERIF_SEED; prints non-zero exits.
-cd /verif
+cd "$(dirname "${BASH_SOURCE[0]}")/.." || exit 2
 for seed in "${@:-0}"; do
   for id in C01 C02 C03 C04 C05 C06 C07 C08 C09 C10 C11 C12 C13 C14 C15 C16 C17 C18 C19 C20; do
     s=$(date +%s); out=$(VERIF_SEED=$seed ./check $id --tier quick --no-evidence 2>&1); rc=$?; e=$(date +%s)
